@@ -481,6 +481,9 @@ func (c *UConn) Write(b []byte) (int, error) {
 }
 
 func (uconn *UConn) ApplyConfig() error {
+	// Hello.ServerName mirrors the server_name extension that is actually sent
+	// (see SNIExtension.writeToUConn); without one no server name is reported.
+	uconn.HandshakeState.Hello.ServerName = ""
 	for _, ext := range uconn.Extensions {
 		err := ext.writeToUConn(uconn)
 		if err != nil {
